@@ -61,6 +61,9 @@ pub fn op_roundtrip(n: usize, seed: &[u8]) -> String {
             let pk_ok = matches!(&pk2, Ok(k) if *k == pk);
             let sig_ok = matches!(&sig2, Ok(s) if *s == sig);
             let signs = match &sk2 {
+                // a decoded key that differs from the original is already the failure; signing with an inconsistent basis
+                // need not terminate
+                Ok(_) if !sk_ok => false,
                 Ok(k) => {
                     let s = $m::sign(b"", k);
                     $m::verify(b"", &s, &pk) && $m::verify(msg, &sig, &pk)
@@ -82,6 +85,21 @@ pub fn op_roundtrip(n: usize, seed: &[u8]) -> String {
 pub fn op_digest(n: usize, seed: &[u8]) -> String {
     let k = keygen_info(n, seed);
     format!("{} {}", hex(&k.sk_bytes), hex(&k.pk_bytes))
+}
+
+/// `first_drawn N seed`: the first (f, g) that the real key generation draws for this seed (trace of `gen_b0`)
+pub fn op_first_drawn(n: usize, seed: &[u8]) -> String {
+    vh::trace_start(false);
+    if n == 512 {
+        let _ = falcon512::SecretKey::verif_gen_b0(seed32(seed));
+    } else {
+        let _ = falcon1024::SecretKey::verif_gen_b0(seed32(seed));
+    }
+    let ev = vh::trace_take();
+    match ev.iter().find(|e| e.tag == "keygen.drawn") {
+        Some(e) => format!("{} {}", ints(&e.ints[..n]), ints(&e.ints[n..])),
+        None => "no-candidate-traced".to_string(),
+    }
 }
 
 /// `first_candidate N seed`: the first (f, g) drawn by ntru_gen from StdRng::from_seed(seed)
